@@ -361,6 +361,10 @@ func runC20(r *hx.Result, cfg hx.Config) {
 	}
 	corpus = append(corpus, round{key: "tiny", roamKey: "tiny", fences: []roamFence{{name: "tinychan", kind: "chan", pattern: "*", meters: 0.2}},
 		script: []step{{"a", pos{10, 10}, "corpus"}, {"b", pos{10.0000009, 10}, "corpus"}, {"b", pos{10, 10}, "corpus"}, {"a", pos{10.00001, 10}, "corpus"}}})
+	// the roam collection vanishes (last object deleted) and is created again
+	corpus = append(corpus, round{key: "cycle", roamKey: "cycle", fences: []roamFence{{name: "cyclechan", kind: "chan", pattern: "*", meters: 1000}},
+		script: []step{{"a", pos{20, 20}, "corpus"}, {"b", pos{20.001, 20}, "corpus"}, {"a", pos{0, 0}, "del"}, {"b", pos{0, 0}, "del"},
+			{"a", pos{20, 20}, "corpus"}, {"b", pos{20.001, 20}, "corpus"}, {"b", pos{20.002, 20}, "corpus"}}})
 	for i := range corpus {
 		runRound(r, cfg, rng, drv, s, wh, &corpus[i], fmt.Sprintf("corpus%d", i))
 	}
@@ -498,10 +502,52 @@ func runRound(r *hx.Result, cfg hx.Config, rng *rand.Rand, drv *model.Driver, s 
 	if rd.script != nil {
 		n = len(rd.script)
 	}
+	// the roam collection's life cycle: once per round (rounds without a live connection or a webhook,
+	// whose streams are compared as a whole) the collection disappears - every object deleted one by
+	// one, or DROP - and is populated again by the following SETs
+	resetAt := -1
+	if rd.script == nil && live == nil && n > 12 {
+		hasHook := false
+		for _, f := range rd.fences {
+			hasHook = hasHook || f.kind == "hook"
+		}
+		if !hasHook {
+			resetAt = 10 + rng.Intn(n-12)
+		}
+	}
+	wipe := func(viaDrop bool) {
+		if viaDrop {
+			c.MustDo("DROP", rd.roamKey)
+		} else {
+			var ids []string
+			for id := range state[rd.roamKey] {
+				ids = append(ids, id)
+			}
+			sort.Strings(ids)
+			for _, id := range ids {
+				c.MustDo("DEL", rd.roamKey, id)
+			}
+		}
+		state[rd.roamKey] = map[string]pos{}
+		if rd.roamKey == rd.key {
+			state[rd.key] = state[rd.roamKey]
+		}
+		sub.Collect() // del / drop notifications are C05's matter
+		r.Dist("roam-collection-wiped")
+	}
 	for i := 0; i < n; i++ {
+		if i == resetAt {
+			wipe(rng.Intn(2) == 0)
+		}
 		var st step
 		if rd.script != nil {
 			st = rd.script[i]
+			if st.cat == "del" {
+				c.MustDo("DEL", rd.key, st.id)
+				delete(state[rd.key], st.id)
+				sub.Collect()
+				continue
+			}
 		} else {
 			st.id = rd.ids[rng.Intn(len(rd.ids))]
 			if i < len(rd.ids) {
@@ -619,6 +665,7 @@ func runRound(r *hx.Result, cfg hx.Config, rng *rand.Rand, drv *model.Driver, s 
 	c.MustDo("PDELCHAN", "f8*")
 	c.MustDo("PDELCHAN", "cars*")
 	c.MustDo("PDELCHAN", "tiny*")
+	c.MustDo("PDELCHAN", "cycle*")
 	c.MustDo("PDELHOOK", rd.key+"*")
 }
 
